@@ -50,6 +50,8 @@ RULE = ("(a) exhaustive: every sequence (with repetitions) of 5-6 notifications 
         "when at least one notification was handed over and one was suppressed or the observation ended.")
 TRUSTED = ["harness clock standing in for `time` inside aiocoap.protocol; wrapper on the "
            "instance's _stop_interest (harness/c07_pipe.py)",
+           "read-only peeks at _Iterator._future / _deferred_error and Task._fut_waiter for the state part of "
+           "the level (i) comparison (harness/c07_iter.py); fake token interface of level (c) (harness/c07_app.py)",
            "virtual-clock event loop and fake-socket UDP stack of the harness (vloop.py, netsim.py)"]
 ASSUMPTIONS = ["asyncio semantics the iterator model relies on (await on a done future does not suspend; "
                "Task.cancel() cancels the awaited future if pending, else throws at the wake-up) are "
@@ -710,7 +712,9 @@ def run(env, rep):
             "b:cancel-before-first", "b:consumer=busy", "b:end=NotObservable", "b:end=ObservationCancelled", "b:end=T2", "b:end=T3",
             "b:rst-sent", "b:ack-sent", "b:event=R:CON", "b:event=R:NON", "b:callbacks"]
     missing = [k for k in need if not rep.hist.get(k)]
-    if missing:
+    if missing and not (rep.oracle_failures or rep.disagreements):
+        # (several of these are counted on what the implementation did: when it misbehaves the
+        # violation is what has to be reported, not the hole it leaves in the coverage)
         raise HarnessError("generators did not reach: " + ", ".join(missing))
     if R != c07_pipe.RFC_RESET_TICKS:
         rep.notes.append(f"implementation's OBSERVATION_RESET_TIME is {R} ticks, RFC 7641 says 128 s")
